@@ -39,7 +39,11 @@ RulePool == AttrPool \o <<LS(t_win), LS(t_lin), RC("contains_field", fB), RC("co
               STN("gte", 5), STN("gt", 5), STN("lt", 6), STN("lte", 4), STN("ne", 5), STN("ne", 6), STN("eq", 5),
               [ST(<<110>>, <<53>>) EXCEPT !.op = "eq"],                         \* n eq "5" (a text)
               [ST(t_k, <<117>>) EXCEPT !.op = "gte"], [ST(t_k, t_v) EXCEPT !.op = "lt"], [ST(t_k, t_w) EXCEPT !.op = "lte"],     \* texts by code points
-              [STN("gte", 5) EXCEPT !.k = t_k], [ST(<<110>>, <<97>>) EXCEPT !.op = "lt"]>>      \* a text against a number
+              [STN("gte", 5) EXCEPT !.k = t_k], [ST(<<110>>, <<97>>) EXCEPT !.op = "lt"],      \* a text against a number
+              \* (appended at the end: other definitions pick conditions of this pool by their position)
+              \* membership operators on attributes that are no lists: an error of the configuration (raised when the
+              \* condition is evaluated - if it is)
+              AT(a_score, "in", <<53>>), AT(a_level, "not_in", t_high)>>
 IC(t, all, s) == [t |-> t, all |-> all, s |-> s, k |-> <<>>, v |-> <<>>, op |-> "eq", num |-> FALSE, n |-> 0]
 ItemPool == <<IC("match_string", FALSE, t_foo), IC("match_string", TRUE, t_foo), IC("match_value", FALSE, t_bar),
               IC("match_value", TRUE, t_zz), IC("contains_wildcard", FALSE, <<>>), IC("contains_wildcard", TRUE, <<>>),
